@@ -24,6 +24,7 @@ Acc == [ionisation_rate              |-> [axes |-> <<"ne", "te">>, photon |-> FA
         beam_emission_pec            |-> [axes |-> <<"e", "n", "t">>, photon |-> TRUE],
         beam_cx_pec                  |-> [axes |-> <<"eb", "ti", "ni", "z", "b">>, photon |-> TRUE]]
 Accessors == DOMAIN Acc
+TwoSpecies == {"thermal_cx_rate", "thermal_cx_pec", "beam_stopping_rate", "beam_population_rate", "beam_emission_pec", "beam_cx_pec"}
 \* axes whose non-positive argument must give zero (density, temperature, energy); Zeff and |B| are not in the statement
 Zeroing == {"ne", "te", "td", "e", "n", "t", "eb", "ti", "ni"}
 Rng(s) == {s[i] : i \in 1..Len(s)}
@@ -39,14 +40,12 @@ WlStates == {"both", "element_only", "isotope_only", "none"}
 SingleAxes(a) == CASE a \in {"beam_stopping_rate", "beam_population_rate", "beam_emission_pec"} -> {"e", "n"}
                    [] a = "beam_cx_pec" -> {"eb", "ti", "ni", "z", "b"}
                    [] OTHER -> {}
-Cases == {c \in [acc : Accessors, species : {"element", "isotope"}, present : BOOLEAN, wl : WlStates,
-                 extrap : BOOLEAN, null : BOOLEAN, fallback : BOOLEAN, arg : UNION {ArgClasses(a) : a \in Accessors},
-                 shape : SUBSET {"e", "n", "eb", "ti", "ni", "z", "b"},
-                 drop : {"none", "ne", "te", "td", "e", "n", "t", "eb", "ti", "ni", "z", "b"}] :
-            \* drop = x: along axis x the stored table falls by four orders of magnitude after its first node (high, low, low), so
-            \* that a cubic interpolant through it dips below zero between the last two nodes; explored for the plain lookup
-            /\ (c.drop # "none" => /\ c.drop \in Rng(Acc[c.acc].axes) /\ c.present /\ c.wl = "both" /\ ~c.null /\ ~c.fallback /\ ~c.extrap
-                                   /\ c.shape = {} /\ c.arg[1] \in {"grid", "inside"} /\ c.species = "element")
+AllAxes == {"ne", "te", "td", "e", "n", "t", "eb", "ti", "ni", "z", "b"}
+\* the table as a union of three families (one filtered product over all fields at once is needlessly large for TLC)
+\* 1. the decision table proper: every flag combination, smooth tables, both species arguments of the same kind
+BaseCases == {c \in [acc : Accessors, species : {"element", "isotope"}, present : BOOLEAN, wl : WlStates,
+                     extrap : BOOLEAN, null : BOOLEAN, fallback : BOOLEAN, arg : UNION {ArgClasses(a) : a \in Accessors},
+                     shape : SUBSET {"e", "n", "eb", "ti", "ni", "z", "b"}, drop : {"none"}, species2 : {"same"}] :
             /\ c.arg \in ArgClasses(c.acc)
             /\ (~Acc[c.acc].photon => c.wl = "both")                       \* wavelength irrelevant
             /\ c.shape \subseteq SingleAxes(c.acc)                         \* shape = the set of single-point axes of the stored table
@@ -54,6 +53,16 @@ Cases == {c \in [acc : Accessors, species : {"element", "isotope"}, present : BO
             /\ (c.shape \notin {{}, SingleAxes(c.acc)} => c.present /\ c.wl = "both" /\ ~c.null /\ ~c.fallback)
             \* the range policy of a single-point axis itself is not in the statement
             /\ (c.arg[1] \in {"below", "above"} => c.arg[2] \notin c.shape)}
+\* 2. drop = x: along axis x the stored table falls by four orders of magnitude after its first node (high, low, low), so that a
+\*    cubic interpolant through it dips below zero between the last two nodes; explored for the plain lookup
+DropCases == {c \in [acc : Accessors, species : {"element"}, present : {TRUE}, wl : {"both"}, extrap : {FALSE}, null : {FALSE},
+                     fallback : {FALSE}, arg : {<<"grid">>, <<"inside">>}, shape : {{}}, drop : AllAxes, species2 : {"same"}] :
+            c.drop \in Rng(Acc[c.acc].axes)}
+\* 3. species2 = "other": accessors taking two species (donor / beam and receiver / target) asked with one element and one
+\*    isotope; isotopes use their element's rates in either position
+Species2Cases == [acc : TwoSpecies, species : {"element", "isotope"}, present : {TRUE}, wl : {"both"}, extrap : BOOLEAN, null : BOOLEAN,
+                  fallback : {FALSE}, arg : {<<"grid">>, <<"inside">>}, shape : {{}}, drop : {"none"}, species2 : {"other"}]
+Cases == BaseCases \cup DropCases \cup Species2Cases
 
 \* which stored wavelength the photon->power conversion must use: the requested species' own, else (isotope, fallback on) its element's
 WlUsed(c) == IF c.species = "element" THEN (IF c.wl \in {"both", "element_only"} THEN "element" ELSE "missing")
@@ -82,6 +91,7 @@ MissingPolicyUniform == ~c.present => \A a \in Accessors : Outcome([c EXCEPT !.a
 IsotopeUsesElementRates == (c.present /\ ~Acc[c.acc].photon) => Outcome([c EXCEPT !.species = "element"]) = Outcome([c EXCEPT !.species = "isotope"])
 \* flags the outcome must not depend on
 \* the policy does not depend on the numbers stored
+Species2Irrelevant == (c.present /\ ~Acc[c.acc].photon) => Outcome([c EXCEPT !.species2 = "same"]) = Outcome([c EXCEPT !.species2 = "other"])
 DropIrrelevant == Outcome([c EXCEPT !.drop = "none"]) = Outcome(c)
 ExtrapOnlyOutside == c.arg[1] \in {"grid", "inside", "nonpos"} => Outcome([c EXCEPT !.extrap = TRUE]) = Outcome([c EXCEPT !.extrap = FALSE])
 
